@@ -98,4 +98,29 @@ Proof. unfold glen, zlen. pose proof (clusters_app_le a b). lia. Qed.
 Theorem glen_app_ge_left a b : (glen a <= glen (a ++ b))%Z.
 Proof. unfold glen, zlen. rewrite !clusters_length, nb_app. lia. Qed.
 
+(* ... and more precisely: every cluster of the first text but its last one is a cluster of the
+   concatenation, in the same place *)
+Lemma dchunks_ne s cur r nxt : dchunks s cur (r :: nxt) <> [].
+Proof.
+  revert s cur r. induction nxt as [|n nxt IH]; intros s cur r; [rewrite dchunks_one; discriminate|].
+  rewrite dchunks_cons2. destruct (dbrk (dstep s (class_of r)) (class_of n)); [discriminate|apply IH].
+Qed.
+
+Lemma removelast_cons {A} (x : A) l : l <> [] -> removelast (x :: l) = x :: removelast l.
+Proof. destruct l; [congruence|reflexivity]. Qed.
+
+Lemma dchunks_prefix b : forall a s cur, a <> [] -> exists X, dchunks s cur (a ++ b) = removelast (dchunks s cur a) ++ X.
+Proof.
+  induction a as [|r a IH]; intros s cur Hne; [congruence|]. destruct a as [|n a'].
+  - rewrite dchunks_one. cbn [removelast app]. eexists. reflexivity.
+  - cbn [app]. rewrite !dchunks_cons2.
+    destruct (dbrk (dstep s (class_of r)) (class_of n)).
+    + destruct (IH (dstep s (class_of r)) [] ltac:(discriminate)) as [X HX]. cbn [app] in HX. rewrite HX.
+      rewrite removelast_cons by apply dchunks_ne. eexists. reflexivity.
+    + destruct (IH (dstep s (class_of r)) (r :: cur) ltac:(discriminate)) as [X HX]. cbn [app] in HX. exists X. exact HX.
+Qed.
+
+Theorem clusters_app_prefix a b : a <> [] -> exists X, clusters (a ++ b) = removelast (clusters a) ++ X.
+Proof. intro Hne. exact (dchunks_prefix b a st0 [] Hne). Qed.
+
 End Subadd.
